@@ -138,14 +138,13 @@ theorem jump_to_next_step (pre labs rest : List SInsn) (i : SInsn) (l : Lab)
     have := normPc_skip (pre ++ [i]) labs (.label l :: rest) ha
     simpa [List.append_assoc] using this
   have hgo := goto_ok (pre ++ i :: (labs ++ .label l :: rest)) fr l _ hf
-  cases i <;> simp [branchTarget, intBranchTarget] at ht <;> subst ht
-  · -- jmp
-    simp [stepInsn, hgo, bind, Except.bind, pure, Except.pure] at hs
-    obtain ⟨rfl, rfl⟩ := hs
-    exact ⟨rfl, rfl, rfl, rfl, hnorm⟩
-  all_goals
-    rename_i hh
-    obtain ⟨c, _, hstep⟩ := stepInsn_brCond (pre ++ _ :: (labs ++ .label l :: rest)) _ l rfl fr g
+  have hbr : ∀ j : SInsn, intBranchTarget j = some l →
+      stepInsn (pre ++ i :: (labs ++ .label l :: rest)) j fr g = .ok (fr', g') →
+      g' = g ∧ fr'.regs = fr.regs ∧ fr'.sov = fr.sov ∧ fr'.uov = fr.uov ∧
+      normPc (pre ++ i :: (labs ++ .label l :: rest)) fr'.pc
+        = normPc (pre ++ i :: (labs ++ .label l :: rest)) (pre.length + 1) := by
+    intro j hj hs
+    obtain ⟨c, _, hstep⟩ := stepInsn_brCond (pre ++ i :: (labs ++ .label l :: rest)) j l hj fr g
     rw [hstep] at hs
     cases c with
     | error e => simp [bind, Except.bind] at hs
@@ -157,6 +156,113 @@ theorem jump_to_next_step (pre labs rest : List SInsn) (i : SInsn) (l : Lab)
       · simp [bind, Except.bind, pure, Except.pure, hgo] at hs
         obtain ⟨rfl, rfl⟩ := hs
         exact ⟨rfl, rfl, rfl, rfl, hnorm⟩
+  cases i with
+  | jmp l' =>
+    have e : l' = l := by simpa [branchTarget] using ht
+    subst e
+    simp [stepInsn, hgo, bind, Except.bind, pure, Except.pure] at hs
+    obtain ⟨rfl, rfl⟩ := hs
+    exact ⟨rfl, rfl, rfl, rfl, hnorm⟩
+  | bcmp a s l' x y => exact hbr _ (by simpa [branchTarget] using ht) hs
+  | bt s t l' x => exact hbr _ (by simpa [branchTarget] using ht) hs
+  | bo u t l' => exact hbr _ (by simpa [branchTarget] using ht) hs
+  | _ => simp [branchTarget, intBranchTarget] at ht
+
+/-- position map of "delete the instruction at index `k + 1`" -/
+def shiftPc (k p : Nat) : Nat := if p ≤ k then p else p - 1
+
+theorem findLabel_lt (pre : List SInsn) (l : Lab) (p : Nat) (h : findLabel pre l = some p) : p < pre.length := by
+  induction pre generalizing p with
+  | nil => simp [findLabel] at h
+  | cons x tl ih =>
+    by_cases hx : x = .label l
+    · subst hx; simp [findLabel] at h; subst h; simp
+    · rw [findLabel_cons_nonlabel _ _ _ hx] at h
+      cases hq : findLabel tl l with
+      | none => simp [hq] at h
+      | some q => simp [hq] at h; subst h; have := ih q hq; simp; omega
+
+/-- labels keep their (shifted) positions when `x; y` is replaced by `x'` (none of them a label) -/
+theorem findLabel_delete (pre post : List SInsn) (x y x' : SInsn) (l : Lab)
+    (hx : x ≠ .label l) (hy : y ≠ .label l) (hx' : x' ≠ .label l) :
+    findLabel (pre ++ x' :: post) l = (findLabel (pre ++ x :: y :: post) l).map (shiftPc pre.length) := by
+  cases hq : findLabel pre l with
+  | some p =>
+    have hlt := findLabel_lt pre l p hq
+    rw [findLabel_append_some _ _ _ _ hq, findLabel_append_some _ _ _ _ hq]
+    simp [shiftPc]; omega
+  | none =>
+    have hn := findLabel_none_noLabel pre l hq
+    rw [findLabel_append_none _ _ _ hn, findLabel_append_none _ _ _ hn, findLabel_cons_nonlabel _ _ _ hx',
+      findLabel_cons_nonlabel _ _ _ hx, findLabel_cons_nonlabel _ _ _ hy]
+    cases findLabel post l with
+    | none => simp
+    | some q => simp [shiftPc]
+
+theorem reverse_not_label (i : SInsn) (mk : Lab → SInsn) (h : reverseBranch i = some mk) (l2 l' : Lab) :
+    mk l2 ≠ .label l' := by
+  cases i <;> simp [reverseBranch] at h
+  · obtain ⟨a', _, rfl⟩ := h; intro e; cases e
+  · subst h; intro e; cases e
+  · subst h; intro e; cases e
+
+/-- **BCond L; JMP L2; <labels> L:  ⇒  BNCond L2; <labels> L:** (mir.c:3793-3802).  With the
+condition of the original branch evaluating to `b`:
+* `b = true`: the original goes to `L`; the reversed branch falls through into the labels, i.e. to
+  the same instruction (`normPc`);
+* `b = false`: the original falls through to `JMP L2` and goes to `L2`; the reversed branch goes to
+  `L2`, whose position is the old one shifted by the deleted instruction. -/
+theorem br_over_jmp_step (pre labs rest : List SInsn) (i : SInsn) (mk : Lab → SInsn) (l l2 : Lab)
+    (hrev : reverseBranch i = some mk) (ht : intBranchTarget i = some l)
+    (ha : AllLabels labs) (hp : NoLabel pre l) (hl : NoLabel labs l)
+    (fr : Frame R) (g : G μ) (hpc : fr.pc = pre.length) (b : Bool) (hc : brCond i fr g = some (.ok b)) :
+    (b = true →
+      stepInsn (pre ++ i :: .jmp l2 :: (labs ++ .label l :: rest)) i fr g
+        = .ok ({ fr with pc := pre.length + 2 + labs.length }, g) ∧
+      stepInsn (pre ++ mk l2 :: (labs ++ .label l :: rest)) (mk l2) fr g = .ok (next fr, g) ∧
+      normPc (pre ++ mk l2 :: (labs ++ .label l :: rest)) (pre.length + 1)
+        = normPc (pre ++ mk l2 :: (labs ++ .label l :: rest)) (shiftPc pre.length (pre.length + 2 + labs.length))) ∧
+    (b = false →
+      stepInsn (pre ++ i :: .jmp l2 :: (labs ++ .label l :: rest)) i fr g = .ok (next fr, g) ∧
+      stepInsn (pre ++ i :: .jmp l2 :: (labs ++ .label l :: rest)) (.jmp l2) (next fr) g
+        = (goto (pre ++ i :: .jmp l2 :: (labs ++ .label l :: rest)) (next fr) l2).map (·, g) ∧
+      stepInsn (pre ++ mk l2 :: (labs ++ .label l :: rest)) (mk l2) fr g
+        = (goto (pre ++ mk l2 :: (labs ++ .label l :: rest)) fr l2).map (·, g) ∧
+      findLabel (pre ++ mk l2 :: (labs ++ .label l :: rest)) l2
+        = (findLabel (pre ++ i :: .jmp l2 :: (labs ++ .label l :: rest)) l2).map (shiftPc pre.length)) := by
+  have hi : ∀ l', i ≠ .label l' := by
+    intro l' e; subst e; simp [intBranchTarget] at ht
+  obtain ⟨hmk, c, hc1, hc2⟩ := reverse_branch_cond i mk hrev l2 fr g
+  rw [hc] at hc1; cases hc1
+  obtain ⟨c1, hb1, hs1⟩ := stepInsn_brCond (pre ++ i :: .jmp l2 :: (labs ++ .label l :: rest)) i l ht fr g
+  rw [hc] at hb1; cases hb1
+  obtain ⟨c2, hb2, hs2⟩ := stepInsn_brCond (pre ++ mk l2 :: (labs ++ .label l :: rest)) (mk l2) l2 hmk fr g
+  rw [hc2] at hb2; cases hb2
+  constructor
+  · intro hb; subst hb
+    have hf : findLabel (pre ++ i :: .jmp l2 :: (labs ++ .label l :: rest)) l = some (pre.length + 2 + labs.length) := by
+      rw [findLabel_append_none _ _ _ hp, findLabel_cons_nonlabel _ _ _ (hi l),
+        findLabel_cons_nonlabel _ _ _ (by intro e; cases e), findLabel_append_none _ _ _ hl, findLabel_here]
+      simp; omega
+    refine ⟨?_, ?_, ?_⟩
+    · rw [hs1]; simp [bind, Except.bind, pure, Except.pure, goto_ok _ _ _ _ hf]
+    · rw [hs2]; simp [bind, Except.bind, pure, Except.pure, Except.map]
+    · have := normPc_skip (pre ++ [mk l2]) labs (.label l :: rest) ha
+      have e : shiftPc pre.length (pre.length + 2 + labs.length) = pre.length + 1 + labs.length := by
+        simp [shiftPc]; omega
+      rw [e]
+      simpa [List.append_assoc] using this.symm
+  · intro hb; subst hb
+    refine ⟨?_, ?_, ?_, ?_⟩
+    · rw [hs1]; simp [bind, Except.bind, pure, Except.pure]
+    · simp only [stepInsn]
+      cases goto (pre ++ i :: .jmp l2 :: (labs ++ .label l :: rest)) (next fr) l2 <;>
+        simp [bind, Except.bind, pure, Except.pure, Except.map]
+    · rw [hs2]
+      cases goto (pre ++ mk l2 :: (labs ++ .label l :: rest)) fr l2 <;>
+        simp [bind, Except.bind, pure, Except.pure, Except.map]
+    · exact findLabel_delete pre (labs ++ .label l :: rest) i (.jmp l2) (mk l2) l2 (hi l2)
+        (by intro e; cases e) (reverse_not_label i mk hrev l2 l2)
 
 end step
 end MirVerif.Simplify
